@@ -316,6 +316,8 @@ type Int struct {
 	// computed without wrap-around; lets two offsets of one quantity be ordered.
 	RelVID int64
 	RelOff int64
+	// Lin: linear normal form over input symbols (see lin.go); nil if unknown
+	Lin *Lin
 }
 
 type Bool struct {
@@ -609,7 +611,7 @@ func NewSymInt(w int, signed bool, s Sym) *Int {
 		bits[i] = Bit{K: BSrc, S: s, J: uint8(i)}
 	}
 	lo, hi := rangeOf(w, signed)
-	return &Int{W: w, Signed: signed, Bits: bits, Lo: lo, Hi: hi, D: Deps{s}, VID: nextVID(), Base: s, HasBase: true}
+	return &Int{W: w, Signed: signed, Bits: bits, Lo: lo, Hi: hi, D: Deps{s}, VID: nextVID(), Base: s, HasBase: true, Lin: linSym(s, w, signed)}
 }
 
 func (v *Int) IsConst() bool { return v.Lo == v.Hi && v.allBitsConst() }
